@@ -51,12 +51,17 @@ def harness(sym):
         seen_rows = 0
         trace = []
 
+        counts = {r: 0 for r in RUNS}
+
         def check_records(where):
             for r in RUNS:
                 nrr = len(w.recent_runs(r))
-                sym.check(nrr <= 1, f"recent-runs>1|{where}", f"{trace}: run {r} has {nrr} recent-run records")
+                if nrr != counts[r]:      # reported at the event that creates the surplus record
+                    sym.check(nrr <= 1, f"recent-runs>1|{where}", f"{trace}: run {r} has {nrr} recent-run records")
+                    counts[r] = nrr
                 if r in stopped:
-                    sym.check(nrr == 1, f"run-not-stored|{where}", f"{trace}: run {r} was stopped but has {nrr} recent-run records")
+                    sym.check(nrr >= 1, f"run-not-stored|{where}", f"{trace}: run {r} was stopped but has no recent-run record")
+            sym.reach()
 
         def check_same_run(where):
             if online and cur is not None:
@@ -190,3 +195,10 @@ OBLIGATIONS = [Obligation(
         ASSUMPTION_DATETIME,
     ],
 )]
+
+MANIFEST = {
+    "level": "model_checking",
+    "text": "Bounded exhaustive symbolic execution (CrossHair/z3) of the real registration, disconnect, run and tag-update handlers, FromEngine._try_restore_reconnected_engine_data, Aggregator.shutdown and the repositories' real store methods over an in-memory session; an aggregator restart is a new Aggregator over the same in-memory database. Every history within the bound of run start/stop, tag updates (solver-real tick times, symbolic values, symbolic data-log interval), engine disconnect, re-registration and aggregator restart (engine connected or not) is covered path by path; after every event the aggregator's run id is compared with the engine's, tag rows with the run's plot log, recent-run rows per run with exactly-once.",
+    "note": "Trusted: CrossHair's int/real models (floats as reals; counterexamples replayed with binary64), z3, the reference bookkeeping in props/C28.py. SQLAlchemy session / SQLite replaced by an in-memory row store, ORM rows by plain records, publishers/asyncio.create_task no-ops, models.datetime stubbed. Restart is graceful (shutdown runs); a crash without shutdown, several engines, longer histories and misbehaving engines (duplicates: see C30) are outside the claim.",
+    "technique": "symbolic execution of the real code (CrossHair + z3), bounded exhaustive over event histories with symbolic times, counterexample replay",
+}
